@@ -42,29 +42,31 @@ theorem Record.info_ext {hp : Heap} {r : Record} (h : r.wf hp) (ext : Heap) :
 
 /-! ### simulation -/
 
-/-- The concrete world represents the abstract tree `paths`. -/
-structure WInv (lvl0 : Int) (w : World) (paths : List (List Attr)) : Prop where
-  len : w.handlers.length = paths.length
+/-- The concrete world represents the abstract tree `s`: every handler still holds the
+`slog.Leveler` of the root, and both sides agree on what the `*slog.LevelVar` holds. -/
+structure WInv (lvl0 : Leveler) (w : World) (s : SpecWorld) : Prop where
+  len : w.handlers.length = s.paths.length
+  lvar : w.lvar = s.lvar
   node : ∀ (i : Nat) (h : Handler), w.handlers[i]? = some h →
-    h.level = lvl0 ∧ h.attrs.wf w.heap ∧ paths[i]? = some (view w.heap h.attrs)
+    h.level = lvl0 ∧ h.attrs.wf w.heap ∧ s.paths[i]? = some (view w.heap h.attrs)
 
-def Sim {β : Type} (lvl0 : Int) (hp0 : Heap) :
-    Option (World × β) → Option (List (List Attr) × β) → Prop
+def Sim {β : Type} (lvl0 : Leveler) (hp0 : Heap) :
+    Option (World × β) → Option (SpecWorld × β) → Prop
   | some (w, o), some (p, o') => o = o' ∧ WInv lvl0 w p ∧ ∃ e, w.heap = hp0 ++ e
   | none, none => True
   | _, _ => False
 
-theorem WInv.none_iff {lvl0 : Int} {w : World} {paths : List (List Attr)} (hi : WInv lvl0 w paths)
-    (i : Nat) : w.handlers[i]? = none ↔ paths[i]? = none := by
+theorem WInv.none_iff {lvl0 : Leveler} {w : World} {s : SpecWorld} (hi : WInv lvl0 w s)
+    (i : Nat) : w.handlers[i]? = none ↔ s.paths[i]? = none := by
   simp [List.getElem?_eq_none_iff, hi.len]
 
 theorem step_sim (pol : Policy) (text : Int → Nat → List Attr → Bytes)
-    (encode : Bytes → Bytes → Bytes) (lvl0 : Int) (recs : List Record) (hp0 : Heap)
+    (encode : Bytes → Bytes → Bytes) (lvl0 : Leveler) (recs : List Record) (hp0 : Heap)
     (hrecs : ∀ r ∈ recs, r.wf hp0)
-    (w : World) (paths : List (List Attr)) (hinv : WInv lvl0 w paths)
+    (w : World) (s : SpecWorld) (hinv : WInv lvl0 w s)
     (hext : ∃ e, w.heap = hp0 ++ e) (op : Op) :
     Sim lvl0 hp0 (w.step pol text encode recs op)
-      (specStep text encode lvl0 (recs.map (Record.info hp0)) paths op) := by
+      (specStep text encode lvl0 (recs.map (Record.info hp0)) s op) := by
   obtain ⟨e0, he0⟩ := hext
   cases op with
   | withAttrs p as =>
@@ -78,7 +80,7 @@ theorem step_sim (pol : Policy) (text : Int → Nat → List Attr → Bytes)
       obtain ⟨ext, h1, h2, h3⟩ := append_clip pol w.heap h.attrs as hwf
       simp only [hh, hp, Option.bind_eq_bind, Option.bind_some, Option.pure_def, Sim, Handler.withAttrs,
         true_and]
-      refine ⟨⟨?_, ?_⟩, ⟨e0 ++ ext, by rw [h1, he0, List.append_assoc]⟩⟩
+      refine ⟨⟨?_, hinv.lvar, ?_⟩, ⟨e0 ++ ext, by rw [h1, he0, List.append_assoc]⟩⟩
       · simp [hinv.len]
       · intro i h' hi'
         simp only at hi' ⊢
@@ -101,7 +103,7 @@ theorem step_sim (pol : Policy) (text : Int → Nat → List Attr → Bytes)
           rw [hi0] at hi'
           simp only [List.getElem?_cons_zero, Option.some.injEq] at hi'
           subst hi'
-          have hieq : i = paths.length := by rw [← hinv.len]; omega
+          have hieq : i = s.paths.length := by rw [← hinv.len]; omega
           refine ⟨hlv, ?_, ?_⟩
           · simpa [h1] using h2
           · subst hieq
@@ -135,7 +137,7 @@ theorem step_sim (pol : Policy) (text : Int → Nat → List Attr → Bytes)
         | error p => simp only [Except.map, Sim, toOut, true_and]; exact ⟨hinv, e0, he0⟩
         | ok out =>
           simp only [Except.map, Sim, toOut, true_and]
-          refine ⟨⟨hinv.len, ?_⟩, ⟨e0 ++ ext, by simp [he0]⟩⟩
+          refine ⟨⟨hinv.len, hinv.lvar, ?_⟩, ⟨e0 ++ ext, by simp [he0]⟩⟩
           intro i h' hi'
           obtain ⟨a1, a2, a3⟩ := hinv.node i h' hi'
           refine ⟨a1, Slice.wf_ext a2 ext, ?_⟩
@@ -150,29 +152,34 @@ theorem step_sim (pol : Policy) (text : Int → Nat → List Attr → Bytes)
     | some h =>
       obtain ⟨hlv, hwf, hp⟩ := hinv.node n h hh
       simp only [hh, hp, Option.bind_eq_bind, Option.bind_some, Option.pure_def, Sim, Handler.enabled, hlv,
-        true_and]
+        hinv.lvar, true_and]
       exact ⟨hinv, e0, he0⟩
+  | setLevel l =>
+    -- the variable changes on both sides; no handler and no array is touched
+    unfold World.step specStep
+    simp only [Option.pure_def, Sim, true_and]
+    exact ⟨⟨hinv.len, rfl, hinv.node⟩, e0, he0⟩
 
 theorem run_sim (pol : Policy) (text : Int → Nat → List Attr → Bytes)
-    (encode : Bytes → Bytes → Bytes) (lvl0 : Int) (recs : List Record) (hp0 : Heap)
+    (encode : Bytes → Bytes → Bytes) (lvl0 : Leveler) (recs : List Record) (hp0 : Heap)
     (hrecs : ∀ r ∈ recs, r.wf hp0) (ops : List Op)
-    (w : World) (paths : List (List Attr)) (hinv : WInv lvl0 w paths)
+    (w : World) (s : SpecWorld) (hinv : WInv lvl0 w s)
     (hext : ∃ e, w.heap = hp0 ++ e) :
     Sim lvl0 hp0 (World.run pol text encode recs w ops)
-      (specRun text encode lvl0 (recs.map (Record.info hp0)) paths ops) := by
-  induction ops generalizing w paths with
+      (specRun text encode lvl0 (recs.map (Record.info hp0)) s ops) := by
+  induction ops generalizing w s with
   | nil => exact ⟨rfl, hinv, hext⟩
   | cons op ops ih =>
-    have hs := step_sim pol text encode lvl0 recs hp0 hrecs w paths hinv hext op
+    have hs := step_sim pol text encode lvl0 recs hp0 hrecs w s hinv hext op
     unfold World.run specRun
     cases h1 : w.step pol text encode recs op with
     | none =>
-      cases h2 : specStep text encode lvl0 (recs.map (Record.info hp0)) paths op with
+      cases h2 : specStep text encode lvl0 (recs.map (Record.info hp0)) s op with
       | none => simp [Sim]
       | some q => rw [h1, h2] at hs; exact hs.elim
     | some pr =>
       obtain ⟨w1, o⟩ := pr
-      cases h2 : specStep text encode lvl0 (recs.map (Record.info hp0)) paths op with
+      cases h2 : specStep text encode lvl0 (recs.map (Record.info hp0)) s op with
       | none => rw [h1, h2] at hs; exact hs.elim
       | some q =>
         obtain ⟨p1, o'⟩ := q
@@ -197,17 +204,146 @@ theorem run_sim (pol : Policy) (text : Int → Nat → List Attr → Bytes)
             subst hos
             exact ⟨rfl, hinv2, hext2⟩
 
-/-- the root world: one handler without attributes -/
-def rootWorld (hp0 : Heap) (lvl0 : Int) : World := { heap := hp0, handlers := [newHandler lvl0] }
+/-! ### the `*slog.LevelVar` along a script -/
 
-theorem rootWorld_inv (hp0 : Heap) (lvl0 : Int) : WInv lvl0 (rootWorld hp0 lvl0) [[]] := by
-  refine ⟨rfl, ?_⟩
+/-- The world's `*slog.LevelVar` holds what the script last stored into it; no other operation
+(`WithAttrs`, `Handle`, `Enabled`) changes it. -/
+theorem run_lvar (pol : Policy) (text : Int → Nat → List Attr → Bytes)
+    (encode : Bytes → Bytes → Bytes) (recs : List Record) (ops : List Op) (w w' : World)
+    (outs : List Out) (h : World.run pol text encode recs w ops = some (w', outs)) :
+    w'.lvar = lastLevel w.lvar ops := by
+  induction ops generalizing w outs with
+  | nil =>
+    simp only [World.run, Option.some.injEq, Prod.mk.injEq] at h
+    rw [← h.1]; rfl
+  | cons op ops ih =>
+    unfold World.run at h
+    cases h1 : w.step pol text encode recs op with
+    | none => simp [h1] at h
+    | some pr =>
+      obtain ⟨w1, o⟩ := pr
+      cases h3 : World.run pol text encode recs w1 ops with
+      | none => simp [h1, h3] at h
+      | some pr2 =>
+        obtain ⟨w2, os⟩ := pr2
+        simp only [h1, h3, Option.bind_eq_bind, Option.bind_some, Option.pure_def, Option.some.injEq,
+          Prod.mk.injEq] at h
+        have hw : w2 = w' := h.1
+        subst hw
+        rw [ih w1 os h3]
+        cases op with
+        | withAttrs p as =>
+          unfold World.step at h1
+          cases hh : w.handlers[p]? with
+          | none => simp [hh] at h1
+          | some hd =>
+            simp only [hh, Option.bind_eq_bind, Option.bind_some, Option.pure_def, Option.some.injEq,
+              Prod.mk.injEq] at h1
+            rw [← h1.1]; rfl
+        | handle n ri =>
+          unfold World.step at h1
+          cases hh : w.handlers[n]? with
+          | none => simp [hh] at h1
+          | some hd =>
+            cases hr : recs[ri]? with
+            | none => simp [hh, hr] at h1
+            | some r =>
+              simp only [hh, hr, Option.bind_eq_bind, Option.bind_some] at h1
+              split at h1 <;>
+                (simp only [Option.pure_def, Option.some.injEq, Prod.mk.injEq] at h1; rw [← h1.1]; rfl)
+        | enabled n l =>
+          unfold World.step at h1
+          cases hh : w.handlers[n]? with
+          | none => simp [hh] at h1
+          | some hd =>
+            simp only [hh, Option.bind_eq_bind, Option.bind_some, Option.pure_def, Option.some.injEq,
+              Prod.mk.injEq] at h1
+            rw [← h1.1]; rfl
+        | setLevel l =>
+          simp only [World.step, Option.pure_def, Option.some.injEq, Prod.mk.injEq] at h1
+          rw [← h1.1]; rfl
+
+/-- one more operation at the end of a script is one step from the world the script reached -/
+theorem run_snoc (pol : Policy) (text : Int → Nat → List Attr → Bytes)
+    (encode : Bytes → Bytes → Bytes) (recs : List Record) (op' : Op) (ops : List Op) (w w' : World)
+    (outs : List Out) (h : World.run pol text encode recs w ops = some (w', outs)) :
+    World.run pol text encode recs w (ops ++ [op']) =
+      (w'.step pol text encode recs op').map fun p => (p.1, outs ++ [p.2]) := by
+  induction ops generalizing w outs with
+  | nil =>
+    simp only [World.run, Option.some.injEq, Prod.mk.injEq] at h
+    obtain ⟨rfl, rfl⟩ := h
+    simp only [List.nil_append, World.run]
+    cases w.step pol text encode recs op' with
+    | none => rfl
+    | some p => rfl
+  | cons op ops ih =>
+    unfold World.run at h
+    simp only [List.cons_append]
+    unfold World.run
+    cases h1 : w.step pol text encode recs op with
+    | none => simp [h1] at h
+    | some pr =>
+      obtain ⟨w1, o⟩ := pr
+      cases h3 : World.run pol text encode recs w1 ops with
+      | none => simp [h1, h3] at h
+      | some pr2 =>
+        obtain ⟨w2, os⟩ := pr2
+        simp only [h1, h3, Option.bind_eq_bind, Option.bind_some, Option.pure_def, Option.some.injEq,
+          Prod.mk.injEq] at h
+        obtain ⟨rfl, rfl⟩ := h
+        simp only [Option.bind_eq_bind, Option.bind_some]
+        rw [ih w1 os h3]
+        cases w2.step pol text encode recs op' with
+        | none => rfl
+        | some p => rfl
+
+/-- a world with one handler without attributes that *stores* the leveler `lvl0` (the
+constructor `newHandlerDyn`), at a moment when the `*slog.LevelVar` holds `lv0` -/
+def rootWorldDyn (hp0 : Heap) (lvl0 : Leveler) (lv0 : Int) : World :=
+  { heap := hp0, handlers := [newHandlerDyn lvl0], lvar := lv0 }
+
+/-- the root world of the code: `NewJSONHybridHandler` with the leveler `lvl0` in the options,
+called when the `*slog.LevelVar` holds `lv0` -/
+def rootWorld (hp0 : Heap) (lvl0 : Leveler) (lv0 : Int) : World :=
+  { heap := hp0, handlers := [newHandler lvl0 lv0], lvar := lv0 }
+
+/-- the code's root stores the constant its leveler reported at construction -/
+theorem rootWorld_eq (hp0 : Heap) (lvl0 : Leveler) (lv0 : Int) :
+    rootWorld hp0 lvl0 lv0 = rootWorldDyn hp0 (.const (lvl0.get lv0)) lv0 := rfl
+
+/-- the abstract root: one node without attributes -/
+def rootSpec (lv0 : Int) : SpecWorld := { paths := [[]], lvar := lv0 }
+
+theorem rootWorldDyn_inv (hp0 : Heap) (lvl0 : Leveler) (lv0 : Int) :
+    WInv lvl0 (rootWorldDyn hp0 lvl0 lv0) (rootSpec lv0) := by
+  refine ⟨rfl, rfl, ?_⟩
   intro i h hi
   cases i with
   | zero =>
-    simp only [rootWorld, List.getElem?_cons_zero, Option.some.injEq] at hi
+    simp only [rootWorldDyn, List.getElem?_cons_zero, Option.some.injEq] at hi
     subst hi
-    exact ⟨rfl, Slice.wf_nil _, by simp [newHandler, view, Slice.nil]⟩
-  | succ j => simp [rootWorld] at hi
+    exact ⟨rfl, Slice.wf_nil _, by simp [newHandlerDyn, view, Slice.nil, rootSpec]⟩
+  | succ j => simp [rootWorldDyn] at hi
+
+/-- Every handler of every tree grown from a root that stores `lvl0` stores `lvl0` (and the
+run is the reference run): the form in which the theorems use the simulation. -/
+theorem run_root (pol : Policy) (text : Int → Nat → List Attr → Bytes)
+    (encode : Bytes → Bytes → Bytes) (lvl0 : Leveler) (lv0 : Int) (recs : List Record) (hp0 : Heap)
+    (hrecs : ∀ r ∈ recs, r.wf hp0) (ops : List Op) (w' : World) (outs : List Out)
+    (h : World.run pol text encode recs (rootWorldDyn hp0 lvl0 lv0) ops = some (w', outs)) :
+    ∃ s', specRun text encode lvl0 (recs.map (Record.info hp0)) (rootSpec lv0) ops = some (s', outs) ∧
+      WInv lvl0 w' s' := by
+  have hs := run_sim pol text encode lvl0 recs hp0 hrecs ops (rootWorldDyn hp0 lvl0 lv0) (rootSpec lv0)
+    (rootWorldDyn_inv hp0 lvl0 lv0) ⟨[], by simp [rootWorldDyn]⟩
+  rw [h] at hs
+  cases h2 : specRun text encode lvl0 (recs.map (Record.info hp0)) (rootSpec lv0) ops with
+  | none => rw [h2] at hs; exact hs.elim
+  | some q =>
+    obtain ⟨s', outs'⟩ := q
+    rw [h2] at hs
+    obtain ⟨ho, hinv, _⟩ := hs
+    subst ho
+    exact ⟨s', rfl, hinv⟩
 
 end GolibsVerif.C19
